@@ -14,10 +14,12 @@ VARIABLE t
 Obs == Traces[t].obs
 Sc == Traces[t].sc
 
-Init == \E j \in 1..Len(Traces) : t = j /\ StartWith(Traces[j].inp)
+IsRefine == "peak" \in DOMAIN inp
+Init == \E j \in 1..Len(Traces) : t = j /\ (IF "peak" \in DOMAIN Traces[j].inp THEN RStartWith(Traces[j].inp) ELSE StartWith(Traces[j].inp))
 
 Adj(res) == (res + 1) \div 2 - 1
-ObsIdx(p) == (p[1] - Adj(inp.res)) \div inp.res + 1            \* 1-based sample index of an observed seed
+Origin == IF IsRefine THEN RefStart ELSE 0                       \* refined peaks are counted from the start of the window
+ObsIdx(p) == (p[1] - Origin - Adj(inp.res)) \div inp.res + 1     \* 1-based sample index of an observed seed
 ObsSet == {ObsIdx(Obs.peaks[i]) : i \in 1..Len(Obs.peaks)}
 
 \* the two choices of LocalMaxima / HeightFilter (a member of each plateau; candidates exactly at the threshold) are
@@ -33,6 +35,22 @@ TraceHeightFilter ==
     /\ cand' = {i \in cand : \/ AboveThreeQuarters(x[i], MaxSample(x))
                               \/ (ReachesThreeQuarters(x[i], MaxSample(x)) /\ i \in ObsSet)}
     /\ pc' = "dist" /\ UNCHANGED <<inp, rs, qs, x, done, peaks, empty>>
+
+TraceRLocalMaxima ==
+    /\ pc = "rcorr"
+    /\ LET N == (ObsSet \cap FlatMaxima(x))
+                 \cup {(run[1] + run[2]) \div 2 : run \in {r \in Plateaus(x) : ~\E i \in ObsSet : i >= r[1] /\ i <= r[2]}}
+       IN LegalNoise(x, N) /\ cand' = StrictMaxima(x) \cup N
+    /\ pc' = "rheight" /\ UNCHANGED <<inp, rs, qs, x, done, peaks, empty>>
+TraceRHeight ==
+    /\ pc = "rheight"
+    /\ cand' = {i \in cand : x[i].n > inp.pt \/ (x[i].n = inp.pt /\ i \in ObsSet)}
+    /\ pc' = "rprom" /\ UNCHANGED <<inp, rs, qs, x, done, peaks, empty>>
+TraceRProminence ==
+    /\ pc = "rprom"
+    /\ cand' = {i \in cand : \/ 20 * Prominence(x, i) > MaxSample(x).n
+                              \/ (20 * Prominence(x, i) = MaxSample(x).n /\ i \in ObsSet)}
+    /\ pc' = "keep" /\ UNCHANGED <<inp, rs, qs, x, done, peaks, empty>>
 
 \* bind the specification's choices to what was logged, when the logged value is one of the allowed choices
 TraceDistStep ==
@@ -50,16 +68,17 @@ TraceKeepTop ==
 Abs(a) == IF a < 0 THEN -a ELSE a
 TieFree == /\ \A i, j \in cand : i # j => ~Eq(x[i], x[j])
 Verdict ==
-    LET aborted == pc = "aborted"
+    LET aborted == pc \in {"aborted", "outside"}
         failedC07 == IF Obs.exc # "" /\ ~aborted THEN {"C07:seeding_raised_" \o Obs.exc} ELSE {}
         ok == Obs.exc = "" /\ ~aborted
         failedC16 ==
             IF ~ok \/ empty \/ Obs.empty THEN {}
-            ELSE (IF \A i \in 1..Len(Obs.peaks) : (Obs.peaks[i][1] - Adj(inp.res)) % inp.res = 0
+            ELSE (IF \A i \in 1..Len(Obs.peaks) : (Obs.peaks[i][1] - Origin - Adj(inp.res)) % inp.res = 0
                   THEN {} ELSE {"C16:seed_position_is_not_a_bin_centre"})
             \cup (IF ObsSet \subseteq cand /\ ~LegalKeep(ObsSet) THEN {"C16:kept_seeds_are_not_the_highest_candidates"} ELSE {})
         drift ==
-            IF aborted THEN (IF Obs.exc = "" THEN {"spec_aborts_but_code_did_not"} ELSE {})
+            IF pc = "outside" THEN {}
+            ELSE IF aborted THEN (IF Obs.exc = "" THEN {"spec_aborts_but_code_did_not"} ELSE {})
             ELSE IF Obs.exc # "" THEN {}
             ELSE IF empty # Obs.empty THEN {"emptiness_differs_from_spec"}
             ELSE IF empty THEN {}
@@ -74,17 +93,19 @@ Verdict ==
             \cup (IF \A i, j \in 1..Len(Obs.peaks) :
                         Abs((Obs.peaks[i][2] - Obs.peaks[i][3]) - (Obs.peaks[j][2] - Obs.peaks[j][3])) <= 2
                   THEN {} ELSE {"score_is_not_height_minus_one_noise_level"})
-            \cup {"contract:" \o c : c \in Contract_Failed(inp, x, ObsSet) \cup Complete_Failed(inp, x, ObsSet)}
-        kinds == (IF empty THEN {"empty"} ELSE {}) \cup (IF aborted THEN {"aborted"} ELSE {})
+            \cup {"contract:" \o c : c \in (IF IsRefine THEN RContract_Failed(inp, x, ObsSet)
+                                            ELSE Contract_Failed(inp, x, ObsSet) \cup Complete_Failed(inp, x, ObsSet))}
+        kinds == (IF empty THEN {"empty"} ELSE {}) \cup (IF aborted THEN {pc} ELSE {}) \cup (IF IsRefine THEN {"refine"} ELSE {})
                  \cup (IF ~empty /\ ~aborted /\ ~TieFree THEN {"ties"} ELSE {})
                  \cup (IF ~empty /\ ~aborted /\ Cardinality(cand) > inp.pcount THEN {"cut"} ELSE {})
                  \cup (IF ~empty /\ ~aborted /\ \E i \in 1..Len(x) : IsOne(x[i]) THEN {"exact_locus"} ELSE {})
     IN /\ (kinds = {} \/ PrintT(ToString(<<"K", t, kinds>>)))
        /\ (failedC07 \cup failedC16 \cup drift = {} \/ PrintT(ToString(<<"V", t, failedC07 \cup failedC16, drift>>)))
 
-Report == pc \in {"done", "aborted"} /\ Verdict /\ pc' = "reported" /\ UNCHANGED <<inp, rs, qs, x, cand, done, peaks, empty, t>>
+Report == pc \in {"done", "aborted", "outside"} /\ Verdict /\ pc' = "reported" /\ UNCHANGED <<inp, rs, qs, x, cand, done, peaks, empty, t>>
 Terminated == pc = "reported" /\ UNCHANGED <<svars, t>>
 TraceNext == \/ (TooLong \/ Sequences \/ SeqTooLong \/ Correlate \/ TraceLocalMaxima \/ TraceHeightFilter \/ Abort_DistanceBelowOne
-                 \/ TraceDistStep \/ DistDone \/ TraceKeepTop) /\ UNCHANGED t
+                 \/ TraceDistStep \/ DistDone \/ TraceKeepTop
+                 \/ RSequences \/ RWindowShort \/ RCorrelate \/ TraceRLocalMaxima \/ TraceRHeight \/ TraceRProminence) /\ UNCHANGED t
              \/ Report \/ Terminated
 =============================================================================
